@@ -14,6 +14,7 @@ import (
 	"sort"
 	"strings"
 	"sync"
+	"time"
 
 	"verifharness/hxlib"
 
@@ -25,13 +26,18 @@ const oDefaultStep = 2000 // the oracle's own copy of the documented default
 type raw struct {
 	K string `json:"k"` // ok | fb (failed before moving) | fa (failed after moving)
 	C int64  `json:"c,omitempty"`
+	E string `json:"e,omitempty"` // failing-input search: the class of error the store fails with ("" = a plain sentinel)
 }
 
 func (w raw) String() string {
-	if w.K == "fb" {
-		return "fb"
+	e := ""
+	if w.E != "" && w.K != "ok" {
+		e = "/" + w.E
 	}
-	return fmt.Sprintf("%s:%d", w.K, w.C)
+	if w.K == "fb" {
+		return "fb" + e
+	}
+	return fmt.Sprintf("%s:%d%s", w.K, w.C, e)
 }
 
 type act struct {
@@ -55,6 +61,11 @@ type qcase struct {
 	// the oracle's findings on it are recorded as observations.
 	Excluded string `json:"excluded,omitempty"`
 	Acts     []act  `json:"acts,omitempty"`
+	// failing-input search legs
+	API   []apiAct `json:"api,omitempty"`   // kind "api-history"
+	Start int64    `json:"start,omitempty"` // kind "long": counter the store starts from
+	Gap   int      `json:"gap,omitempty"`   // kind "long": largest gap between two counters
+	Stall int      `json:"stall_ms,omitempty"`
 }
 
 // ---- the in-memory store ------------------------------------------------------------------------
@@ -98,7 +109,7 @@ func (a *adapter) incr(g int) (int64, error) {
 	defer a.mu.Unlock()
 	w := a.be.incr(g)
 	if w.K != "ok" {
-		return 0, errStoreDown
+		return 0, storeError(w.E)
 	}
 	if a.lastId != 0 && a.lastId >= w.C {
 		return 0, uuid.ErrIDOutOfRange
@@ -136,7 +147,7 @@ func (s *genStore) Close() error { return nil }
 
 func errKind(err error) string {
 	switch {
-	case errors.Is(err, errStoreDown):
+	case errors.Is(err, errStoreDown) || injected(err):
 		return "err:store"
 	case errors.Is(err, uuid.ErrIDOutOfRange):
 		return "err:range"
@@ -543,11 +554,15 @@ func (s *source) fresh() int64 {
 
 func (s *source) draw(faultPct int) raw {
 	x := s.R.Intn(100)
+	e := ""
+	if len(searchClasses) > 0 && x < faultPct {
+		e = searchClasses[s.R.Intn(len(searchClasses))]
+	}
 	switch {
 	case x < faultPct/2:
-		return raw{K: "fb"}
+		return raw{K: "fb", E: e}
 	case x < faultPct:
-		return raw{K: "fa", C: s.fresh()}
+		return raw{K: "fa", C: s.fresh(), E: e}
 	}
 	return raw{K: "ok", C: s.fresh()}
 }
@@ -612,7 +627,7 @@ func randomHistory(r *hxlib.Run, maxActs int) qcase {
 	h.c.Kind = "random"
 	h.src = &source{R: R, mode: R.Intn(4), used: map[int64]bool{}, step: effStep(step)}
 	if h.src.mode == 0 || h.src.mode == 1 {
-		h.src.cur = int64(R.Pick(-1, 0, 1, 100, 1<<40))
+		h.src.cur = []int64{-1, 0, 1, 100, 1 << 40}[R.Intn(5)]
 	}
 	for i, n := 0, R.Range(1, 3); i < n; i++ {
 		h.adapter()
@@ -722,12 +737,24 @@ func repeatedCounter() qcase {
 // ---- concurrent callers ------------------------------------------------------------------------------
 
 func concurrent(r *hxlib.Run, seed uint64, ngen, workers, each int, step int32) {
+	concurrentStall(r, seed, ngen, workers, each, step, 0)
+}
+
+// stallMs > 0 (failing-input search): about every fourth store call made by Next stalls for 10..stallMs ms —
+// inside the generator's mutex, while the other callers keep calling.
+func concurrentStall(r *hxlib.Run, seed uint64, ngen, workers, each int, step int32, stallMs int) {
 	r.Case()
 	R := hxlib.NewRand(seed)
 	src := &source{R: R, mode: R.Intn(3), used: map[int64]bool{}, step: effStep(step)}
 	faultPct := R.Pick(0, 20, 50)
 	be := &backend{}
-	be.auto = func() raw { return src.draw(faultPct) } // under be.mu
+	stalling := false
+	be.auto = func() raw { // under be.mu
+		if stalling && stallMs > 0 && R.Chance(1, 4) {
+			time.Sleep(time.Duration(R.Range(10, stallMs)) * time.Millisecond)
+		}
+		return src.draw(faultPct)
+	}
 	nad := R.Range(1, 2)
 	ads := make([]*adapter, nad)
 	for i := range ads {
@@ -768,6 +795,7 @@ func concurrent(r *hxlib.Run, seed uint64, ngen, workers, each int, step int32) 
 		}
 	}
 	initCalls := len(be.log) // the store calls made by the Init retries, in order
+	stalling = true
 	var wg sync.WaitGroup
 	for w := 0; w < workers; w++ {
 		wg.Add(1)
@@ -780,7 +808,7 @@ func concurrent(r *hxlib.Run, seed uint64, ngen, workers, each int, step int32) 
 		}(w)
 	}
 	wg.Wait()
-	c := qcase{Kind: "concurrent", Generators: ngen, Workers: workers, Each: each, Step: step, Seed: seed}
+	c := qcase{Kind: "concurrent", Generators: ngen, Workers: workers, Each: each, Step: step, Seed: seed, Stall: stallMs}
 	// per worker and generator: increasing in the worker's own order; globally: the oracle's checks
 	errsByGen := make([]int, ngen)
 	for w := range out {
@@ -962,7 +990,19 @@ func main() {
 	if r.Replay != "" {
 		var c qcase
 		r.LoadReplay(&c)
-		if c.Kind == "concurrent" {
+		if c.Kind == "api-history" {
+			doAPI(r, c)
+		} else if c.Kind == "long" {
+			r.Case()
+			fails, _ := runLong(c)
+			for _, f := range fails {
+				r.Fail(f.key, f.what, c)
+			}
+		} else if c.Kind == "concurrent" && c.Stall > 0 {
+			for k := 0; k < 5 && !r.Failed(); k++ {
+				concurrentStall(r, c.Seed, c.Generators, c.Workers, c.Each, c.Step, c.Stall)
+			}
+		} else if c.Kind == "concurrent" {
 			concurrent(r, c.Seed, c.Generators, c.Workers, c.Each, c.Step)
 		} else if c.Kind != "api" {
 			do(r, c)
@@ -971,6 +1011,13 @@ func main() {
 		}
 		r.Sample(c)
 		return
+	}
+	if r.Search {
+		searchLegs(r)
+		if r.Failed() {
+			r.Note("the search legs found a failing input; the ordinary generators were not run again")
+			return
+		}
 	}
 	// excluded points: run once, recorded as observations
 	do(r, differentSteps())
